@@ -303,6 +303,15 @@ class Lite(object):
                 out |= self.ret_types.get(c.qname, set())
             if not cs.callees:
                 nm = e.func.id if isinstance(e.func, ast.Name) else e.func.attr if isinstance(e.func, ast.Attribute) else None
+                if nm == "next" and e.args and isinstance(e.args[0], (ast.GeneratorExp, ast.ListComp)) and len(e.args[0].generators) == 1:
+                    # next((x for x in seq if ...), default): an element of seq, or the default
+                    g = e.args[0].generators[0]
+                    if isinstance(g.target, ast.Name) and isinstance(e.args[0].elt, ast.Name) and e.args[0].elt.id == g.target.id:
+                        it_ = self.etype(f, g.iter)
+                        out = {x[5:] for x in it_ if x.startswith("list:")} | {x[6:] for x in it_ if x.startswith("tuple:")}
+                        if len(e.args) > 1:
+                            out |= self.etype(f, e.args[1])
+                        return out
                 if nm in INT_FUNCS:
                     return {"int"}
                 if nm in ("hexlify", "unhexlify", "b", "int2byte", "join", "encode", "digest", "normalise_bytes", "bytes", "str", "format", "b64decode", "b64encode", "strip"):
